@@ -144,6 +144,8 @@ fn run_one(engine: &str, prop: &str, thorough: bool, case_seed: u64, sub: u64) -
         "B" => engine_b::run(prop, thorough, case_seed, sub),
         #[cfg(feature = "fc-alloc")]
         "C" => engine_c::run(prop, thorough, case_seed, sub),
+        #[cfg(feature = "fc-std")]
+        "T" => engine_t::run(prop, thorough, case_seed),
         e => panic!("engine {e} not available in configuration {}", config_name()),
     }
 }
@@ -207,7 +209,7 @@ fn cmd_run(args: &[String]) {
     let iters: u64 = arg(args, "--iters").unwrap_or("1000").parse().expect("iters");
     let out = arg(args, "--out");
     let engines: Vec<(&str, u32)> = match arg(args, "--engines") {
-        Some(e) => engines_for(prop).into_iter().filter(|(n, _)| e.split(',').any(|x| x == *n)).collect(),
+        Some(e) => ["A", "B", "C", "T"].into_iter().filter(|n| e.split(',').any(|x| x == *n)).map(|n| (n, 1)).collect(),
         None => engines_for(prop),
     };
     let breadcrumb = arg(args, "--breadcrumb");
@@ -387,8 +389,6 @@ fn main() {
         "replay" => cmd_replay(&args),
         "dfs" => cmd_dfs(&args),
         "sigs-merge" => cmd_sigs_merge(&args),
-        #[cfg(feature = "fc-std")]
-        "threads" => engine_t::cmd(&args),
         "config" => println!("{}", config_name()),
         _ => {
             eprintln!("usage: fcv run|replay|dfs|threads|sigs-merge ...");
